@@ -663,11 +663,29 @@ class Gen:
             if vs and r.random() < 0.5:
                 return ['var', r.choice(vs)]
             return ['seq'] + [['int', r.randint(0, 5)] for _ in range(r.choice([0, 1, 2, 3, 3]))]
-        k = r.randrange(22)
+        k = r.randrange(24)
         if self.scope_only and k in (5, 6, 7, 8, 9, 10, 18, 19, 20, 21):
-            k = r.choice([2, 3, 4, 11, 12, 13, 14, 16, 17])
-        if k in (18, 20) and self.no_partial:
+            k = r.choice([2, 3, 4, 11, 12, 13, 14, 16, 17, 22, 23])
+        if k in (18, 20, 22, 23) and self.no_partial:
             k = 2
+        if k in (22, 23):
+            # the fixed arguments of a partial application of a built-in function belong to the scope (variables
+            # or focus) of the partial application, not to the place of the call
+            self.features.add('builtin-partial-fixed-argument-scope')
+            s1, s2 = self.gen_S(env, 0), self.gen_S(env, 0)
+            if s1 == ['seq']:
+                s1 = ['seq', ['int', 1], ['int', 2], ['int', 3]]
+            b = r.choice(['index-of', 'remove'])
+            if k == 22:
+                vname = 'vv'
+                inner = ['let', vname, self.gen_I(env, 0), ['bi', b, ['?'], ['var', vname]]]
+                return ['let', vname, ['int', r.randint(1, 3)],
+                        ['let', 'ff', inner, ['seq', ['call', ['var', 'ff'], [s1]], ['var', vname]]]]
+            fs = ['bang', ['seq', ['int', 1], ['int', 2], ['int', 3]], ['bi', b, ['?'], ['dot']]]
+            if r.random() < 0.5:
+                return ['for', 'ff', fs, ['call', ['var', 'ff'], [s1]]]
+            return ['bang', ['let', 'ff', fs, ['seq', ['int', 7], ['int', 8]]], ['seq', ['dot']]] if False else \
+                ['let', 'fs', fs, ['for', 'ff', ['var', 'fs'], ['call', ['var', 'ff'], [s1]]]]
         if k == 19:
             # a named reference to a higher-order function is bound first, the function item it is called with
             # closes over a variable bound later (and the reference is used more than once)
